@@ -76,40 +76,37 @@ theorem firstName_intoNames {valid : JStr → Bool} {n : Nat} {name : JStr} {mor
 
 /-! ## the round-trip domain lies inside the domain of `write` -/
 
-theorem namesOk_displayable {valid : JStr → Bool} {n : Nat} {names : Names} (h : namesOk valid n names = true) :
-    namesDisplayable names = true := by
+theorem namesOk_writable {valid : JStr → Bool} {n : Nat} {names : Names} (h : namesOk valid n names = true) :
+    namesWritable names = true := by
   simp only [namesOk, Bool.and_eq_true, List.all_eq_true] at h
-  simp only [namesDisplayable, List.all_eq_true]
+  simp only [namesWritable, List.all_eq_true]
   intro o ho
   cases o with
   | none => rfl
   | some s =>
     have := h.2 (some s) ho
     simp only [Bool.and_eq_true] at this
-    have hc := this.1.2
-    simp only [cellOk, List.all_eq_true, Bool.and_eq_true] at hc
-    simp only [Bool.not_eq_true', List.any_eq_false]
-    intro x hx
-    simpa using (hc x hx).2
+    exact this.1.2
 
-theorem writable_displayable {n : Nat} {m : Mappings} (h : writable n m = true) : displayable m = true := by
+theorem writable_writeOk {n : Nat} {m : Mappings} (h : writable n m = true) : writeOk m = true := by
   simp only [writable, Bool.and_eq_true, List.all_eq_true] at h
-  simp only [displayable, List.all_eq_true, Bool.and_eq_true]
+  simp only [writeOk, List.all_eq_true, Bool.and_eq_true]
+  refine ⟨fun s hs => (h.1.1.1.2 s hs).2, ?_⟩
   rintro ⟨k, c⟩ hc
   have h1 := h.2 (k, c) hc
   simp only [classOk, Bool.and_eq_true, List.all_eq_true] at h1
-  refine ⟨⟨namesOk_displayable h1.1.1.1, ?_⟩, ?_⟩
+  refine ⟨⟨namesOk_writable h1.1.1, ?_⟩, ?_⟩
   · rintro ⟨kf, f⟩ hf
     have := h1.1.2 (kf, f) hf
     simp only [fieldOk, Bool.and_eq_true] at this
-    exact namesOk_displayable this.1.2
+    exact ⟨this.1, namesOk_writable this.2⟩
   · rintro ⟨km, me⟩ hm
     have := h1.2 (km, me) hm
     simp only [methodOk, Bool.and_eq_true, List.all_eq_true] at this
-    refine ⟨namesOk_displayable this.1.1.2, ?_⟩
+    refine ⟨⟨this.1.1, namesOk_writable this.1.2⟩, ?_⟩
     rintro ⟨kp, p⟩ hp
     have := this.2 (kp, p) hp
     simp only [paramOk, Bool.and_eq_true] at this
-    exact namesOk_displayable this.1.2
+    exact namesOk_writable this.2
 
 end Tiny
